@@ -73,4 +73,79 @@ PROP(C15) __CPROVER_ensures((RET == 1) == V_ISNULL(VV) && (RET == 0 || RET == 1)
 PROP(C15) __CPROVER_ensures(UNCHANGED)
 ;
 
+/* ---- table / tuple / imaginary accessors: same rule (matching type => success, NULL data for a null value) ---- */
+#ifdef CAPI_MORE
+#define TABLE_OK(v) (V_LEVEL(v) > 0)
+#define TUPLE_OK(v) (V_IS(v, ROWTYPE) && V_LEVEL(v) == 0)
+char bloc_table(struct bloc_value *v, struct bloc_array **buf)
+__CPROVER_assigns(*buf, _ZL10bloc_error)
+PRE_VALUE
+PROP(C01, C15) __CPROVER_ensures(__exc == 0)
+PROP(C15) __CPROVER_ensures((RET == 1) == TABLE_OK(VV))
+PROP(C15) __CPROVER_ensures(RET == 1 ==> (V_ISNULL(VV) ? *buf == 0 : (void *)*buf == VV->_value.p))
+PROP(C15) __CPROVER_ensures(RET != 1 ==> (RET == 0 && _ZL10bloc_error.no != 0))
+PROP(C15) __CPROVER_ensures(UNCHANGED)
+;
+char bloc_tuple(struct bloc_value *v, struct bloc_row **buf)
+__CPROVER_assigns(*buf, _ZL10bloc_error)
+PRE_VALUE
+PROP(C01, C15) __CPROVER_ensures(__exc == 0)
+PROP(C15) __CPROVER_ensures((RET == 1) == TUPLE_OK(VV))
+PROP(C15) __CPROVER_ensures(RET == 1 ==> (V_ISNULL(VV) ? *buf == 0 : (void *)*buf == VV->_value.p))
+PROP(C15) __CPROVER_ensures(RET != 1 ==> (RET == 0 && _ZL10bloc_error.no != 0))
+PROP(C15) __CPROVER_ensures(UNCHANGED)
+;
+char bloc_imaginary(struct bloc_value *v, struct bloc_pair **buf)
+__CPROVER_assigns(*buf, _ZL10bloc_error)
+PRE_VALUE
+PROP(C01, C15) __CPROVER_ensures(__exc == 0)
+PROP(C15) __CPROVER_ensures((RET == 1) == (V_IS(VV, IMAGINARY) && V_LEVEL(VV) == 0))
+PROP(C15) __CPROVER_ensures(RET == 1 ==> (V_ISNULL(VV) ? *buf == 0 : (void *)*buf == VV->_value.p))
+PROP(C15) __CPROVER_ensures(RET != 1 ==> (RET == 0 && _ZL10bloc_error.no != 0))
+PROP(C15) __CPROVER_ensures(UNCHANGED)
+;
+/* bloc_type bloc_value_type(bloc_value*) : pure, reports the major type and the table level */
+struct bloc_type bloc_value_type(struct bloc_value *v)
+__CPROVER_requires(IS_FRESH(v, sizeof(struct Value)) && VALID_TAG(VV) && __exc == 0 && GLOBALS_PINNED)
+__CPROVER_assigns()
+PROP(C01, C15) __CPROVER_ensures(__exc == 0)
+PROP(C15) __CPROVER_ensures(RET.major == V_MAJOR(VV) && RET.ndim == V_LEVEL(VV))
+PROP(C15) __CPROVER_ensures(UNCHANGED)
+;
+/* void bloc_assign_null(bloc_value*) : the value becomes a null of its own type and keeps its ownership mark */
+void bloc_assign_null(struct bloc_value *v)
+__CPROVER_requires(IS_FRESH(v, sizeof(struct Value)) && VALID_TAG(VV) && __exc == 0 && __caught_n == 0 && GLOBALS_PINNED)
+__CPROVER_assigns(__CPROVER_object_whole(v))
+PROP(C01, C15) __CPROVER_ensures(__exc == 0)
+PROP(C15) __CPROVER_ensures(V_ISNULL(VV) && V_MAJOR(VV) == __CPROVER_old(V_MAJOR(VV)) && V_MINOR(VV) == __CPROVER_old(V_MINOR(VV)) && V_LEVEL(VV) == __CPROVER_old(V_LEVEL(VV)) && V_LVALUE(VV) == __CPROVER_old(V_LVALUE(VV)))
+;
+/* bloc_value * bloc_create_integer(int64_t) / bloc_create_boolean / bloc_create_numeric : a new non-null value the caller owns */
+struct bloc_value *bloc_create_integer(long x)
+__CPROVER_requires(__exc == 0 && GLOBALS_PINNED)
+__CPROVER_assigns()
+PROP(C01, C15) __CPROVER_ensures(__exc == 0 && RET != 0)
+PROP(C15) __CPROVER_ensures(V_IS((struct Value *)RET, INTEGER) && V_LEVEL((struct Value *)RET) == 0 && !V_ISNULL((struct Value *)RET) && !V_LVALUE((struct Value *)RET) && ((struct Value *)RET)->_value.i == x)
+;
+struct bloc_value *bloc_create_numeric(double x)
+__CPROVER_requires(__exc == 0 && GLOBALS_PINNED)
+__CPROVER_assigns()
+PROP(C01, C15) __CPROVER_ensures(__exc == 0 && RET != 0)
+PROP(C15) __CPROVER_ensures(V_IS((struct Value *)RET, NUMERIC) && V_LEVEL((struct Value *)RET) == 0 && !V_ISNULL((struct Value *)RET) && !V_LVALUE((struct Value *)RET) && ((struct Value *)RET)->_value.i == *(long *)&x)
+;
+/* bloc_bool is bloc_true (1) or bloc_false (0) */
+struct bloc_value *bloc_create_boolean(char x)
+__CPROVER_requires((x == 0 || x == 1) && __exc == 0 && GLOBALS_PINNED)
+__CPROVER_assigns()
+PROP(C01, C15) __CPROVER_ensures(__exc == 0 && RET != 0)
+PROP(C15) __CPROVER_ensures(V_IS((struct Value *)RET, BOOLEAN) && V_LEVEL((struct Value *)RET) == 0 && !V_ISNULL((struct Value *)RET) && !V_LVALUE((struct Value *)RET) && ((struct Value *)RET)->_value.b == (x != 0))
+;
+/* bloc_value * bloc_create_null(bloc_type_major) : a null of that type (an unknown code gives the untyped null) */
+struct bloc_value *bloc_create_null(unsigned type)
+__CPROVER_requires(__exc == 0 && GLOBALS_PINNED)
+__CPROVER_assigns()
+PROP(C01, C15) __CPROVER_ensures(__exc == 0 && RET != 0)
+PROP(C15) __CPROVER_ensures(V_ISNULL((struct Value *)RET) && V_LEVEL((struct Value *)RET) == 0 && !V_LVALUE((struct Value *)RET) && V_MAJOR((struct Value *)RET) == (type >= BOOLEAN && type <= IMAGINARY ? type : NO_TYPE))
+;
+#endif
+
 #include FNS_C
